@@ -238,25 +238,25 @@ def check(ctx):
         q = "twisted.mail.imap4.collapseStrings"
         f2 = FollowModule(mod, dict(funcs), env0)
         f2["splitQuoted"] = lambda b: [("TOKENIZED", b)]
-        env = dict(env0)
-        for st in fs.body:
-            if isinstance(st, ast.Assign) and len(st.targets) == 1 and isinstance(st.targets[0], ast.Name) and isinstance(st.value, (ast.Lambda, ast.Dict)):
-                try:
-                    env[st.targets[0].id] = peval(st.value, env, f2)
-                except (NotPure, Raised) as ex:
-                    raise AnalysisError(f"{q}: {st.targets[0].id} not evaluable ({ex})")
-        preds = [k for k, v in env.items() if callable(v) and k not in env0]
-        trans = [k for k, v in env.items() if isinstance(v, dict)]
-        ctx.need(len(preds) == 1 and len(trans) == 1, f"predicate and transformer table of {q}")
-        pred, tran = env[preds[0]], env[trans[0]]
-        lit = (b'a"\\ b',)
-        try:
-            ok = bool(pred(lit)) and not pred(b"a") and tran[pred(lit)]([lit]) == [lit[0]] and tran[pred(b"a")]([QU, b"a", QU]) == [("TOKENIZED", b'"a"')]
-        except Exception as ex:  # evaluation of the lambdas failed: shape not recognised
-            raise AnalysisError(f"{q}: transformer table not evaluable ({ex!r})")
-        ctx.check(ok, "reader/literal-bypasses-tokenizer", q,
-                  "literal data (a tuple from parseNestedParens) is not passed through verbatim / plain units are not tokenized: quotes, backslashes "
-                  "and spaces inside a literal would be re-interpreted")
+        cs = interp(fs, f2, env0)
+        f2["collapseStrings"] = cs
+        lit = b'a"\\ b'
+        cases = [
+            ([QU, b"a", QU, (lit,), b"x"], [("TOKENIZED", b'"a"'), lit, ("TOKENIZED", b"x")]),
+            ([(lit,)], [lit]),
+            ([[(lit,), b"y"], b"z"], [[lit, ("TOKENIZED", b"y")], ("TOKENIZED", b"z")]),
+            ([b"n", b"o"], [("TOKENIZED", b"no")]),
+            ([], []),
+        ]
+        bad = None
+        for given, want in cases:
+            got, err = _call(cs, given)
+            if err is not None or got != want:
+                bad = (given, got if err is None else err, want)
+                break
+        ctx.check(bad is None, "reader/literal-bypasses-tokenizer", q,
+                  bad and f"collapseStrings({bad[0]!r}) gives {bad[1]!r}; required {bad[2]!r}: literal data (a tuple from parseNestedParens) must pass through verbatim - quotes, "
+                  "backslashes and spaces inside it are data - while runs of plain units go to the tokenizer (shown as TOKENIZED)")
 
     # ---- reader: splitQuoted on writer outputs ----------------------------------------------------------------------------
     with sect(ctx, 'reader: splitQuoted on writer outputs'):
@@ -340,5 +340,11 @@ SILENT = [
     Silent("literal-branch-with-inner-loop", IMAP, "                    contentStack[-1].append((s[end + 3 : end + 3 + literalSize],))\n                    i = end + 3 + literalSize\n",
            "                    begin = end + 1\n                    for _unit in (b\"\\r\", b\"\\n\"):\n                        begin += 1\n"
            "                    stop = begin + literalSize\n                    contentStack[-1].append((s[begin:stop],))\n                    i = stop\n"),
+    Silent("collapse-strings-helpers-at-module-level", IMAP, "    pred = lambda e: isinstance(e, tuple)\n    tran = {\n        0: lambda e: splitQuoted(b\"\".join(e)),\n        1: lambda e: [b\"\".join([i[0] for i in e])],\n    }\n",
+           "    pred = _isLit\n    tran = {False: _tokens, True: _lits}\n",
+           more=[(IMAP, "def collapseStrings(results):\n", "def _isLit(e):\n    return isinstance(e, tuple)\n\n\ndef _tokens(run):\n    return splitQuoted(b\"\".join(run))\n\n\n"
+                  "def _lits(run):\n    return [b\"\".join(piece[0] for piece in run)]\n\n\ndef collapseStrings(results):\n")]),
+    Silent("collapse-guard-clauses-and-inplace-tuples", IMAP, '        if i is None:\n            pieces.extend([b" ", b"NIL"])\n        elif isinstance(i, int):\n            pieces.extend([b" ", networkString(str(i))])\n',
+           '        if i is None:\n            pieces += (b" ", b"NIL")\n            continue\n        if isinstance(i, int):\n            pieces += (b" ", networkString(str(i)))\n            continue\n        if False:\n            pass\n'),
     Silent("F42-repaired-tokenizer", IMAP, _SQ_OLD, _SQ_FIXED),
 ]
